@@ -1,6 +1,8 @@
 Require Extraction.
 Require Import ExtrOcamlBasic.
-From Herc Require Import Base.Conv Combine.Model Combine.Spec.
+From Herc Require Import Base.Conv Combine.Model Combine.Spec Combine.FastOracles Plumbing.IdStr Plumbing.IdentityMerge.
 Extraction "c18_model.ml" conv_anchor literal_merge common_merge tick_offsets devs_merge couples_merge bd_merge
   dv_conserve_b cp_sum_b sel_exact_b literal_b wf_table_b pm_rows_b code code_merge expected_code common_b
-  members selected name_eqb bd_merge_repaired.
+  members selected name_eqb bd_merge_repaired
+  cp_sum_fast_b dv_conserve_fast_b
+  merge_domb mtotal_okb mpointers_okb mcomponents_okb munion_okb.
